@@ -136,8 +136,16 @@ func oddProfile(class string) *profile.Profile {
 	return p
 }
 
-func argsOf(c ccase) []string {
+func argsOf(c ccase, p *profile.Profile) []string {
 	var a []string
+	if k := strings.Index(c.Cmd, "@addr"); k > 0 {
+		addr := uint64(0x1234)
+		if len(p.Location) > 0 {
+			addr = p.Location[0].Address
+		}
+		rest := argsOf(ccase{Prof: c.Prof, Cmd: "top", Flag: c.Flag, Val: c.Val}, p)[1:]
+		return append([]string{fmt.Sprintf("-%s=%#x", c.Cmd[:k], addr)}, rest...)
+	}
 	switch c.Cmd {
 	case "list", "disasm", "weblist", "peek":
 		a = append(a, "-"+c.Cmd+"=.")
@@ -193,7 +201,7 @@ func main() {
 			os.WriteFile(progress, []byte(fmt.Sprintf("%d\n%s\n", i, raw)), 0o644)
 		}
 		p := oddProfile(c.Prof)
-		args := argsOf(c)
+		args := argsOf(c, p)
 		done := make(chan *vdrv.Result, 1)
 		go func() {
 			done <- vdrv.Run(vdrv.Opts{Args: args, RealSym: true, Fetch: func(string) (*profile.Profile, error) { return p.Copy(), nil }})
